@@ -1,15 +1,112 @@
-"""C09 - see spec/Net.tla, spec/NetEval.tla, harness/netcheck.py."""
+"""C09 - see spec/Net.tla, spec/NetEval.tla, harness/netcheck.py; kill points inside a handler:
+spec/KillEval.tla, harness/killrun.py."""
+import json
+import os
+import random
+import shutil
+
 from ..core import Outcome
-from .. import netcheck
+from .. import netcheck, sessrun, killrun, tlc
+from ..par import pmap
+
+
+def _count(sp):
+    r = killrun.run(dict(sp, kill_at=0))
+    return len(r["bounds"]), r
+
+
+def kill_specs(ctx, jdir):
+    alpha = sessrun.alphabet(ctx)
+    frames = [e for e in alpha if e["t"] == "frame"]
+    sends = [e for e in alpha if e["t"] == "send"]
+    logon_in = next(e for e in frames if e["f"]["kind"] == "LOGON" and e["f"]["rel"] == 0)
+    logon_out = next(e for e in sends if e["m"]["kind"] == "LOGON")
+    app = next(e for e in sends if e["m"]["kind"] == "APP")
+    rng = random.Random(ctx.seed * 13 + 9)
+    npre = 10 if ctx.quick else 80
+    pres = [[{"t": "attach"}], [{"t": "attach"}, logon_in], [{"t": "attach"}, logon_out, logon_in]]
+    for _ in range(npre):
+        p = [{"t": "attach"}] + rng.choice([[logon_in], [logon_out, logon_in]])
+        for _ in range(rng.randint(1, 8)):
+            p.append(rng.choice(frames) if rng.random() < 0.6 else rng.choice(sends))
+        pres.append(p)
+    cont = [{"t": "attach"}, logon_in, app, app]
+    cont2 = [{"t": "attach"}, logon_out, logon_in, app]
+    base = []
+    n = 0
+    for p in pres:
+        for tg in frames + sends:
+            n += 1
+            base.append({"id": "k%d" % n, "revs": p, "target": tg, "cont": cont if n % 2 else cont2,
+                         "jfile": os.path.join(jdir, "k%d.db" % n)})
+    return base
+
+
+def run_kill(ctx, out):
+    jdir = netcheck.scratch(ctx, "c09k")
+    try:
+        base = kill_specs(ctx, jdir)
+        counts = pmap(_count, base)
+        specs = []
+        recs = []
+        for sp, (b, r0) in zip(base, counts):
+            recs.append(r0)
+            specs.append(dict(sp, kill_at=0))
+            for k in range(1, b + 1):
+                specs.append(dict(sp, id="%s@%d" % (sp["id"], k), kill_at=k, jfile=sp["jfile"][:-3] + "_%d.db" % k))
+        ctx.log("kill points: %d (prefix, event) pairs, %d boundaries; executing one killed-and-restarted run per boundary" % (len(base), len(specs) - len(base)))
+        recs += pmap(killrun.run, specs[len(base):])
+    finally:
+        shutil.rmtree(jdir, ignore_errors=True)
+    eval_kill(ctx, out, recs, specs)
+    labels = {}
+    for r in recs:
+        if r["kill_at"] and r.get("labels"):
+            labels[r["labels"][-1]] = labels.get(r["labels"][-1], 0) + 1
+    out.extra["kill_points"] = {"pairs": len(base), "killed_runs": len(specs) - len(base), "by_boundary": labels}
+
+
+def eval_kill(ctx, out, recs, specs):
+    slim = [{k: r[k] for k in ("id", "pre", "post", "bounds", "completed", "raised", "restored", "wire", "cont_error")} for r in recs]
+    verd = tlc.evaluate(ctx.sub("evalk"), "KillEval", slim, shard_size=max(20, len(slim) // 16 + 1), jobs=16, timeout=1200)
+    for r, v, sp in zip(recs, verd, specs):
+        out.traces += 1
+        inp = {"kill": {k: sp[k] for k in ("id", "revs", "target", "cont", "kill_at")}}
+        if r.get("harness_error"):
+            out.failures.append({"clause": "HARNESS", "triggers": [], "input": inp, "detail": r["harness_error"], "trace": None})
+            continue
+        if not v["fails"]:
+            out.traces_ok += 1
+        out.hit({"kill:" + c: 1 for c in ("T1c_restored_counters", "T2_no_number_reuse")})
+        for c in v["fails"]:
+            out.failures.append({"clause": c, "triggers": [], "input": inp,
+                                 "detail": {"target": r["target"], "killed_at": (r.get("labels") or ["-"])[-1] if r["kill_at"] else "not killed",
+                                            "pre": r["pre"], "bounds": r["bounds"], "restored": r["restored"],
+                                            "wire": [(w["seq"], w["inc"], w["kind"]) for w in r["wire"]], "cont_error": r["cont_error"]},
+                                 "trace": None})
 
 
 def run(ctx):
     out = Outcome()
     netcheck.run(ctx, out, "C09")
+    run_kill(ctx, out)
+    out.assumptions.append("kill points: a kill takes effect at a journal-commit, transport-write or drain boundary (SQLite's own atomic-commit is trusted, C08 "
+                           "covers statement-level crash points of the journal); uncommitted journal work is lost, bytes handed to the transport before the kill may or may not have reached the peer")
     return out
 
 
 def replay(ctx, inp):
     out = Outcome()
+    if "kill" in inp:
+        jdir = netcheck.scratch(ctx, "c09k")
+        try:
+            sp = dict(inp["kill"], jfile=os.path.join(jdir, "r.db"))
+            rec = killrun.run(sp)
+        finally:
+            shutil.rmtree(jdir, ignore_errors=True)
+        eval_kill(ctx, out, [rec], [sp])
+        out.states = out.transitions = 1
+        out.samples = [{"id": rec["id"], "bounds": rec["bounds"], "restored": rec["restored"]}]
+        return out
     netcheck.replay(ctx, out, "C09", inp)
     return out
